@@ -204,6 +204,11 @@ def case_nonrigid(c):
             out["lattice"] = x[0].tolist()
             out["fwd_points_at_lattice"] = t(x).tolist()
         out["points_world"] = t.points(T(c["world_points"]), axes=Axes.WORLD).tolist()
+        if c.get("disp_any"):
+            g4 = mk_grid(c["disp_any"])
+            d4 = t.disp(g4).to(F64)
+            out["disp_any_grid"] = grid_out(g4)
+            out["disp_any"] = [[d4[(k, slice(None)) + tuple(reversed(idx))].tolist() for idx in c["lattice_any"]] for k in range(d4.shape[0])]
     return out
 
 
